@@ -23,3 +23,38 @@ theorem flags_reject (f : BitVec 32) (h : 4 ≤ f.toNat) : validatePolygonFlags 
   simp [this]
 
 end H3.C15
+
+namespace H3.C15
+open H3
+
+/-- **nesting, structural part: CENTER ⊆ OVERLAPPING ⊆ OVERLAPPING_BBOX** for every cell, whatever
+the geometry says (each disjunct of the smaller mode occurs in the larger) -/
+theorem mode_center_sub_overlapping (p : CellPrims) : acceptTarget 0 p = true → acceptTarget 2 p = true := by
+  unfold acceptTarget; cases p; simp; intro h; simp [h]
+
+theorem mode_overlapping_sub_bbox (p : CellPrims) : acceptTarget 2 p = true → acceptTarget 3 p = true := by
+  unfold acceptTarget
+  obtain ⟨a, b, c, d, e, f, g, h⟩ := p
+  cases a <;> cases b <;> cases c <;> cases d <;> simp
+
+/-- **FULL ⊆ CENTER** under the one geometric hypothesis H3: a cell whose boundary is inside the
+polygon (and crosses no loop) has its centre inside -/
+theorem mode_full_sub_center (p : CellPrims) (H3 : p.boundaryInside = true → p.centerIn = true) :
+    acceptTarget 1 p = true → acceptTarget 0 p = true := by
+  unfold acceptTarget
+  obtain ⟨a, b, c, d, e, f, g, h⟩ := p
+  simp only [] at H3
+  cases a <;> cases c <;> simp at H3 ⊢
+
+/-- FULL returns a cell only if its boundary is inside the polygon; CENTER exactly if the centre is;
+OVERLAPPING always if the centre is inside, a first polygon vertex falls in the cell, or edges cross -/
+theorem full_only_if (p : CellPrims) : acceptTarget 1 p = p.boundaryInside := by
+  unfold acceptTarget; obtain ⟨a, b, c, d, e, f, g, h⟩ := p; cases c <;> simp
+
+theorem center_iff (p : CellPrims) : acceptTarget 0 p = p.centerIn := by
+  unfold acceptTarget; obtain ⟨a, b, c, d, e, f, g, h⟩ := p; cases a <;> simp
+
+theorem overlapping_iff (p : CellPrims) : acceptTarget 2 p = (p.centerIn || p.firstVtx || p.crosses) := by
+  unfold acceptTarget; obtain ⟨a, b, c, d, e, f, g, h⟩ := p; cases a <;> cases b <;> cases d <;> simp
+
+end H3.C15
